@@ -8,6 +8,8 @@
 #include <stdarg.h>
 #include <unistd.h>
 #include <fcntl.h>
+#include <signal.h>
+#include <sys/resource.h>
 
 typedef struct { uint64_t s; } vp_rng_t;
 
@@ -95,6 +97,11 @@ typedef struct {
 
 static inline vp_args_t vp_parse_args (int argc, char **argv) {
   vp_args_t a = {1, 0, 1, 0, 0, "", ""};
+  { /* no file written by the code under test (or by a tool started for it) grows beyond 16 MB: a translator or printer that loops
+       forever must not fill the disk before the watchdog fires; the write fails with EFBIG instead */
+    struct rlimit rl = {16l << 20, 16l << 20};
+    setrlimit (RLIMIT_FSIZE, &rl); signal (SIGXFSZ, SIG_IGN);
+  }
   for (int i = 1; i < argc; i++) {
     if (!strcmp (argv[i], "--seed") && i + 1 < argc) a.seed = strtoull (argv[++i], 0, 0);
     else if (!strcmp (argv[i], "--start") && i + 1 < argc) a.start = atol (argv[++i]);
